@@ -377,7 +377,13 @@ class Function(NodeOwner):
                 # on is the right-most operand
                 if B.cond is not None:
                     c = strip(B.cond, casts=False)
+                    elem_ids = {e.id for e in B.elems}
                     while c is not None and c.k == 'BinaryOperator' and c.get('op') in ('&&', '||'):
+                        if c.id in elem_ids:
+                            # the logical operator itself is evaluated in this block as the join of the short-circuit
+                            # paths (clang does this for do-while conditions): the block is also entered when the LEFT
+                            # operand decided, so the branch is on the whole expression, not on its right operand
+                            break
                         c = strip(c.ch[1], casts=False)
                     B.cond = c
                 B.label = self.nodes[b['label']] if 'label' in b else None
